@@ -1,10 +1,16 @@
 #!/bin/sh
-# sweep.sh <seeds...> : all quick checks under several seeds (developer tool)
-cd /verif
+# tools/sweep.sh <seed>... : every quick check under several VERIF_SEEDs, from a frozen copy of /verif under $ISO
+# (developer tool; the copy keeps editing in /verif from disturbing the run; /repo itself is used, so do not touch it meanwhile)
+ISO=${ISO:-/tmp/iso_sweep}
+rm -rf "$ISO/verif"; mkdir -p "$ISO/verif"
+rsync -a --exclude target --exclude out --exclude .git --exclude seeded --exclude fuzz/target /verif/ "$ISO/verif/"
+[ -d "$ISO/target" ] && mv "$ISO/target" "$ISO/verif/harness/target"
+cd "$ISO/verif" || exit 2
 for s in "$@"; do
   for i in C01 C02 C03 C04 C05 C06 C07 C08 C09 C10 C11 C12 C13 C14 C15 C16 C17 C18 C19 C20; do
-    VERIF_SEED=$s ./check $i quick > /tmp/sweep_out.txt 2>&1; rc=$?
-    echo "seed=$s $i rc=$rc $(grep -c '^VIOLATION' /tmp/sweep_out.txt) $(grep "^$i quick" /tmp/sweep_out.txt | cut -c1-150)"
-    if [ $rc != 0 ]; then grep -v "^proptest" /tmp/sweep_out.txt | tail -5 | cut -c1-300; fi
+    VERIF_SEED=$s ./check $i quick > "$ISO/out.txt" 2>&1; rc=$?
+    echo "seed=$s $i rc=$rc violations=$(grep -c '^VIOLATION' "$ISO/out.txt") $(grep "^$i quick" "$ISO/out.txt" | cut -c1-150)"
+    if [ $rc != 0 ]; then grep -v "^proptest" "$ISO/out.txt" | tail -5 | cut -c1-300; fi
   done
 done
+mv "$ISO/verif/harness/target" "$ISO/target"
